@@ -91,10 +91,12 @@ impl Segment3D {
         } else {
             let ab = self.end - self.start;
             let ap = point - self.start;
+            // interpolate along the dominant component of the segment
             let ret: Float;
-            if ab.x.abs() > Float::EPSILON {
+            if ab.x.abs() > Float::EPSILON && ab.x.abs() >= ab.y.abs() && ab.x.abs() >= ab.z.abs()
+            {
                 ret = ap.x / ab.x;
-            } else if ab.y.abs() > Float::EPSILON {
+            } else if ab.y.abs() > Float::EPSILON && ab.y.abs() >= ab.z.abs() {
                 ret = ap.y / ab.y;
             } else if ab.z.abs() > Float::EPSILON {
                 ret = ap.z / ab.z;
